@@ -31,6 +31,8 @@ def allWatchers (regs : List Watcher) (prog : List Stmt) (bodies : List (List St
   regs ++ stmtWatchers 10000 prog ++ (bodies.map (stmtWatchers 10000)).flatten
 
 def findW (ws : List Watcher) (id : Nat) : Option Watcher := ws.find? (fun w => w.id = id)
+/-- a watcher with the given callback identity (registrations sharing a callback are identical otherwise) -/
+def findCb (ws : List Watcher) (cb : Nat) : Option Watcher := ws.find? (fun w => w.cb = cb)
 
 def Item.isCall : Item → Bool | .call .. => true | _ => false
 
@@ -80,6 +82,7 @@ def records (c : Cfg) : Nat → Bool → List Item → List Rec
       { ev := ⟨p, old, new⟩, tr := tr, regs := regs } :: records c f false rest
     | .stmt "set" .. => records c f false rest
     | .stmt "discard" .. => records c f false rest
+    | .stmt "trigger" _ _ _ _ _ _ _ (.raised .key) => records c f false rest   -- unknown name: nothing applied
     | .stmt _ _ _ _ _ _ _ ch _ => records c f false ch ++ records c f false rest
     | .call .. => records c f false rest
 
@@ -96,26 +99,28 @@ def hasKind : Nat → String → List Item → Bool
   | f + 1, k, (.stmt k' _ _ _ _ _ _ ch _) :: rest => k' == k || hasKind f k ch || hasKind f k rest
   | f + 1, k, (.call _ _ _ _ ch _) :: rest => hasKind f k ch || hasKind f k rest
 
+/-- did the assignment raise an event for (a registration of) this watcher's callback -/
 def qualifies (ws : List Watcher) (r : Rec) (w : Watcher) : Bool :=
-  r.regs.contains w.id && passes r.tr w r.ev
+  (r.regs.filterMap (findW ws)).any (fun x => x.cb = w.cb) && passes r.tr w r.ev
 
 /-- C04: the first flush round after a batch whose body produced `recs` -/
 def checkFlushRound (ws : List Watcher) (recs : List Rec) (calls : List (Nat × List TEv × List Int)) :
     Option String :=
   let expectedIds := (recs.flatMap fun r => (r.regs.filterMap (findW ws)).filter (qualifies ws r)).map (·.id)
   let expSet := expectedIds.eraseDups
+  let expCbs := (expSet.filterMap (findW ws)).map (·.cb)
   let k := expSet.length
   let round := calls.take k
   let ids := round.map (·.1)
   if calls.length < k then some s!"flush: {calls.length} callbacks ran, {k} watchers had qualifying events"
-  else if !(decide ids.Nodup) then some "flush: a watcher ran twice in one flush"
-  else if !(expSet.all ids.contains) then some "flush: a watcher with a qualifying event did not run"
+  else if !ids.isPerm expCbs then
+    some s!"flush: callbacks {ids} ran, the watchers with qualifying events have callbacks {expCbs} (each exactly once)"
   else
-    let precs := ids.filterMap (fun i => (findW ws i).map (·.precedence))
+    let precs := ids.filterMap (fun i => (findCb ws i).map (·.precedence))
     if !(precs.zip (precs.drop 1)).all (fun (a, b) => decide (a ≤ b)) then some "flush: not in precedence order"
     else
       round.findSome? fun (wid, evs, _) =>
-        match findW ws wid with
+        match findCb ws wid with
         | none => some "flush: unknown watcher"
         | some w =>
           let want := w.params.filter fun n => recs.any fun r => r.ev.name = n && qualifies ws r w
@@ -143,7 +148,7 @@ def checkNodes (prop : String) (c : Cfg) (ws : List Watcher) (top : Bool) : Nat 
     let here : Option String :=
       match it with
       | .call wid _ _ _ ch _ =>
-        match findW ws wid with
+        match findCb ws wid with
         | some w =>
           if w.queued && countCalls 100000 ch != 0 then
             some s!"callback {wid} is queued but its own assignments were dispatched while it was running"
@@ -156,8 +161,8 @@ def checkNodes (prop : String) (c : Cfg) (ws : List Watcher) (top : Bool) : Nat 
           let ev : Ev := ⟨p, old, new⟩
           let exp := expectedDirect ws regs tr ev
           let got := directCalls ch false
-          if got.map (·.1) != exp.map (·.id) then
-            some s!"set p{p} {old}->{new}: watchers invoked {got.map (·.1)}, expected exactly once each, in order, {exp.map (·.id)}"
+          if got.map (·.1) != exp.map (·.cb) then
+            some s!"set p{p} {old}->{new}: watchers invoked {got.map (·.1)}, expected exactly once each, in order, {exp.map (·.cb)}"
           else if (got.zip exp).any (fun (g, w) => g.2.1 != [typed tr w ev]) then
             some s!"set p{p} {old}->{new}: event payload differs from the true old/new/type"
           else match got.head? with
